@@ -703,10 +703,14 @@ func (m *MapPollard) placeEmptyRoot(prevRootPos uint64) error {
 			if found && v.Hash != empty {
 				m.Nodes.Delete(curPos)
 
+				// Only leaves are in the cached leaves. A full pollard remembers
+				// every node but the nodes that aren't leaves must stay out.
 				_, cached := m.CachedLeaves.Get(v.Hash)
+				if cached {
+					m.CachedLeaves.Put(v.Hash, pos)
+				}
 				if cached || m.Full {
 					v.Remember = true
-					m.CachedLeaves.Put(v.Hash, pos)
 				}
 				m.Nodes.Put(pos, v)
 			}
@@ -750,8 +754,10 @@ func (m *MapPollard) undoDeletion(proof Proof, hashes []Hash) error {
 		v, found := m.Nodes.Get(sib)
 		if found {
 			_, cached := m.CachedLeaves.Get(v.Hash)
-			if cached || m.Full {
+			if cached {
 				m.CachedLeaves.Put(v.Hash, prevPos)
+			}
+			if cached || m.Full {
 				v.Remember = true
 			}
 
@@ -806,22 +812,27 @@ func (m *MapPollard) undoDeletion(proof Proof, hashes []Hash) error {
 		if m.Full {
 			remember = true
 		}
+		isTarget := false
 		for _, target := range proof.Targets {
 			if TreeRows(m.NumLeaves) != m.TotalRows {
 				translated := translatePos(target, TreeRows(m.NumLeaves), m.TotalRows)
 				if pos == translated {
-					remember = true
+					isTarget = true
 				}
 			} else {
 				if pos == target {
-					remember = true
+					isTarget = true
 				}
 			}
 		}
+		if isTarget {
+			remember = true
+		}
 		m.Nodes.Put(pos, Leaf{Hash: newhnp.hashes[i], Remember: remember})
 
-		// Only add it to the cached leaves if remember is true.
-		if remember {
+		// Only the targets are leaves. The other calculated positions must not
+		// be added to the cached leaves even when the pollard is full.
+		if isTarget {
 			m.CachedLeaves.Put(newhnp.hashes[i], pos)
 		}
 	}
@@ -1175,14 +1186,19 @@ func (m *MapPollard) ingest(delHashes []Hash, proof Proof) error {
 		if m.Full {
 			remember = true
 		}
+		isTarget := false
 		for i := range hnp.positions {
 			if hnp.positions[i] == pos {
+				isTarget = true
 				remember = true
 				break
 			}
 		}
 		m.Nodes.Put(pos, Leaf{Hash: intermediate.hashes[i], Remember: remember})
-		if remember {
+
+		// Only the targets are leaves. The other calculated positions must not
+		// be added to the cached leaves even when the pollard is full.
+		if isTarget {
 			m.CachedLeaves.Put(intermediate.hashes[i], pos)
 		}
 	}
